@@ -216,6 +216,8 @@ def _tree_case(arg):
     # 1. self pattern, leaf mutants (whole module and a few statements / expressions)
     self_pat = clone(a)
     items = [('self', self_pat, pat_json(ser, a), [], a, root)]
+    # the same pattern from an INDEPENDENT parse: equal but not identical leaf objects (bytes, big ints, floats, ...)
+    items.append(('self:independent-parse', ast.parse(src), pat_json(ser, a), [], a, root))
     for site in leaf_mutants(a, rng, 8 if quick else 16):
         mut, _ = apply_leaf(a, site)
         if ast.dump(mut) == ast.dump(a):
